@@ -1,6 +1,6 @@
 (* Executable statements of C01 (clean channel), C02 (loss recovery) and C16 (late join) over what
    the writers of one object received in a session. *)
-From FluteV Require Import Model.ObjRecv Spec.RecvSpec.
+From FluteV Require Import Model.BlockEnc Model.ObjRecv Spec.RecvSpec.
 Open Scope N_scope.
 
 Record ometa := mk_ometa {
@@ -56,3 +56,9 @@ Fixpoint blocks_recoverable (rs : bool) (parity : N) (ks : list N) (sbn : N) (go
   | [] => true
   | k :: r => block_recoverable rs parity k sbn got && blocks_recoverable rs parity r (sbn + 1) got
   end.
+
+(* C01, refusal clause: "an object the wire format cannot carry (transfer length above the scheme's
+   maximum) is refused when it is added" - judged on what add_object answered for an object of
+   transfer length [tlen] under the OTI (f, e, b) it is sent with *)
+Definition P_C01_refused_above_maximum (f : fec) (e b tlen : N) (accepted : bool) : bool :=
+  negb accepted || (tlen <=? max_transfer_length f e b).
